@@ -178,6 +178,19 @@ def write_replay(pid, cls, case, detail, count, tier, mod):
     return path
 
 
+def write_shard_replay(pid, cls, shard, case, detail, count, tier):
+    os.makedirs(REPLAY_DIR, exist_ok=True)
+    h = hashlib.sha1((cls + json.dumps(shard, sort_keys=True, default=str)).encode()).hexdigest()[:10]
+    path = os.path.join(REPLAY_DIR, '%s-shard-%s.json' % (pid, h))
+    doc = dict(property=pid, violation_class=cls, shard=shard, tier=tier, case=case, detail=detail, count_in_sweep=count,
+               note='history-dependent violation: the case fails only after the calls made earlier in its shard; the replay re-runs '
+                    'the shard (a deterministic call sequence) from its start in a fresh interpreter',
+               replay_cmd='./check --replay %s' % os.path.relpath(path, ROOT))
+    with open(path, 'w') as f:
+        json.dump(doc, f, indent=1, ensure_ascii=False, default=str)
+    return path
+
+
 def replay_in_fresh_process(path):
     "returns the list of violation classes a fresh interpreter observes for the stored case"
     r = subprocess.run([sys.executable, '-m', 'mc.run', '--replay', path, '--json'], capture_output=True, text=True,
@@ -206,7 +219,14 @@ def cmd_replay(argv):
     global _CTX
     _CTX = Ctx(60.0)
     try:
-        found = mod.check_case(doc['case'])
+        if 'shard' in doc:
+            try:
+                mod.run_shard(doc['shard'], _CTX, doc.get('tier', 'quick'))
+            except HangError:
+                _CTX.violation('hang', _CTX.current, 'no progress')
+            found = [(c, dict(count=v[0], case=v[1], detail=v[2])) for c, v in _CTX.viol.items()]
+        else:
+            found = mod.check_case(doc['case'])
     except HangError:
         found = [('hang', 'no progress')]
     _CTX = None
@@ -234,6 +254,7 @@ def run_check(pid, tier):
     open_classes = {e['class']: e for e in findings if e['status'] == 'open'}
     lines = []
     merged_viol = {}
+    viol_shards = collections.defaultdict(list)
     harness_errors = []
 
     def add_viol(cls, count, case, detail, alts=()):
@@ -309,6 +330,8 @@ def run_check(pid, tier):
                     samples.append(s)
             for cls, (count, case, detail, _size, alts) in res['viol'].items():
                 add_viol(cls, count, case, detail, alts)
+                if len(viol_shards[cls]) < 3:
+                    viol_shards[cls].append(shard)
 
     tot['states'] += len(stateset)
 
@@ -352,12 +375,29 @@ def run_check(pid, tier):
         except Exception as ex_:
             again = None
             harness_errors.append(('replay', str(ex_)))
+        history_note = ''
         if again is not None and cls not in again:
-            nonrepro.append((cls, path, again))
-            continue
+            # no single case reproduces it: the violation needs the calls made earlier in the same sweep.  A shard is a
+            # deterministic call sequence, so it is replayed from its start in a fresh interpreter
+            found_shard = None
+            for sh in viol_shards.get(cls, []):
+                spath = write_shard_replay(pid, cls, sh, case, detail, count, tier)
+                try:
+                    if cls in replay_in_fresh_process(spath):
+                        found_shard = spath
+                        break
+                except Exception as ex_:
+                    harness_errors.append(('shard-replay', str(ex_)))
+                os.remove(spath)
+            if found_shard is None:
+                nonrepro.append((cls, path, again))
+                continue
+            os.remove(path)
+            path = found_shard
+            history_note = ' history-dependent=yes (holds when the case is the first call of a process; replay re-runs its shard from the start)'
         replays.append(path)
-        lines.append('VIOLATION property=%s replay=%s class=%s count=%d case=%s' % (
-            pid, os.path.relpath(path, ROOT), cls, count, json.dumps(case, ensure_ascii=False, default=str)[:300]))
+        lines.append('VIOLATION property=%s replay=%s class=%s count=%d case=%s%s' % (
+            pid, os.path.relpath(path, ROOT), cls, count, json.dumps(case, ensure_ascii=False, default=str)[:300], history_note))
         exit_code = 1
     if len(new) > 25:
         lines.append('note: %d further violation classes not written out' % (len(new) - 25))
